@@ -139,7 +139,8 @@ def rule_shapes(ctx: Ctx, rep: Report) -> None:
     rep.ob(rule, "leaf_hash", bool(th) and ctx.fold(th[0].args[0], lh.module) == b"TapLeaf" and "leaf_version.to_bytes(1" in txt and "var_bytes.serialize(script)" in txt, lh.where(), "TapLeaf(version || compact_size(len) || script)")
     co = ctx.func(f"{T}.check_output_pubkey")
     c0 = [c for c in own_nodes(co.node) if isinstance(c, ast.Call) and call_name(c) == "leaf_hash"]
-    rep.ob(rule, "verifier:leaf_version_mask", bool(c0) and norm(c0[0].args[0]) == "control[0] & 254", co.where(), "leaf version = control[0] & 0xfe")
+    vxc = VX.of(co)
+    rep.ob(rule, "verifier:leaf_version_mask", bool(c0) and vxc.anywhere("leaf_hash($$c[0] & 254, $$s)"), co.where(), "leaf version = control[0] & 0xfe")
     rets = [n for n in own_nodes(co.node) if isinstance(n, ast.Return) and isinstance(n.value, ast.BoolOp)]
     okr = False
     for r_ in rets:
@@ -147,6 +148,7 @@ def rule_shapes(ctx: Ctx, rep: Report) -> None:
             for a_, b_ in (r_.value.values, r_.value.values[::-1]):
                 mq: dict[str, str] = {}
                 okr |= PT.match(PT.compile_("$Q[0] == int.from_bytes(q, 'big')"), a_, mq) and (PT.match(PT.compile_("control[0] & 1 == $Q[1] % 2"), b_, mq) or PT.match(PT.compile_("control[0] & 1 == $Q[1] & 1"), b_, mq))
+    okr = okr or vxc.returns("$$Q[0] == int.from_bytes($$q, 'big') and $$c[0] % 2 == $$Q[1] % 2") or vxc.returns("control[0] % 2 == $$Q[1] % 2 and $$Q[0] == int.from_bytes(q, 'big')")
     rep.ob(rule, "verifier:x_and_parity", okr, co.where(), "accepts only if both the x-coordinate and the parity bit match")
     dl = [c for c in own_nodes(co.node) if isinstance(c, ast.Call) and call_name(c) == "tweak_add_check"]
     rep.ob(rule, "verifier:delegated_parity", bool(dl) and norm(dl[0].args[1]) == "control[0] & 1", co.where(), "the delegated check is handed the parity bit")
@@ -307,17 +309,21 @@ def rule_leaf_as_committed(ctx: Ctx, rep: Report) -> None:
     if len(hs) != 1 or len(rets) != 1:
         rep.unknown(rule, "_tree_helper:shape", fi.where(), f"{len(hs)} leaf_hash calls, {len(rets)} returns")
         return
+    vx = VX.of(fi)
+    cb: dict[str, str] = {}
     committed = norm(hs[0].args[0])
+    for v_ in vx.value_of(hs[0]):
+        if VX.has(v_, "leaf_hash($$cv, $$x)", cb):
+            committed = cb["$$cv"]
     b: dict[str, str] = {}
     ok = False
     detail = f"returns `{norm(rets[0].value)[:80]}`"
-    if PT.match(PT.compile_("([(($v, $$s), $$p)], $$h)"), rets[0].value, b):
-        handed = b.get("v", "")
+    if vx.ret is not None and VX.has(vx.ret, "([(($$v, $$s), $$p)], $$h)", b):
+        handed = b.get("$$v", "")
         ok = str(handed) == str(committed)
         detail = f"hash over `{committed}`, leaf handed out with `{handed}`"
-        # masked: the committed version is masked somewhere (an `&= 0xFE` on it, or the expression itself)
-        masked = "& 254" in str(expand(fi, hs[0].args[0])).replace("0xFE", "254").replace("0xfe", "254") or any(
-            isinstance(a, ast.AugAssign) and isinstance(a.op, ast.BitAnd) and norm(a.target) == committed and ctx.fold(a.value, fi.module) == 0xFE for a in own_nodes(fi.node))
+        # masked: the committed version, locals inlined, carries the mask
+        masked = "& 254" in str(committed)
         rep.ob(rule, "_tree_helper:masked", masked, fi.where(hs[0]), "the parity bit is masked out of the committed version" if masked else "the committed leaf version keeps its lowest bit, which is the control byte's parity bit")
     else:
         detail += ": the leaf is not rebuilt from the masked version"
